@@ -138,9 +138,10 @@ theorem settle_in_order {s : Srv} {b : Bg} {rest : List Bg} (hb : s.bg = b :: re
       ((step.drain cfg (runHandler cfg { s with bg := [] } b).1 [] rest).1,
         (runHandler cfg { s with bg := [] } b).2 ++
           (step.drain cfg (runHandler cfg { s with bg := [] } b).1 [] rest).2) := by
-  rw [step, hb]
-  unfold step.drain
-  rw [drain_outs_eq]
+  have hc : ∀ (s' : Srv) (o : List Out), step.drain cfg s' o (b :: rest) =
+      step.drain cfg (runHandler cfg s' b).1 (o ++ (runHandler cfg s' b).2) rest :=
+    fun s' o => by rw [step.drain]
+  rw [step, hb, hc, drain_outs_eq]
   simp
 
 /-- An EVENT on a namespace the transport is not connected to: no output at all, the state is
